@@ -16,6 +16,7 @@ const (
 	ClCallback  = "callback"  // calls its function-typed arguments; otherwise pure
 	ClPoolGet   = "pool-get"
 	ClPoolPut   = "pool-put"
+	ClPassThru  = "pure-passthrough" // reads only; result may alias / wrap its arguments (reflect readers)
 	ClUntabled  = "untabled" // conservatively writes everything reachable from pointer-like args
 	ClUserFn    = "user-function"
 	ClLockUnlck = "sync"
@@ -47,6 +48,30 @@ var extTable = map[string]extSpec{
 	"(*sort.StringSlice).Sort":                        {class: ClWriteArg, write: []int{0}},
 	"sort.Strings":                                    {class: ClWriteArg, write: []int{0}},
 	"sort.Ints":                                       {class: ClWriteArg, write: []int{0}},
+	"reflect.ValueOf":                                 {class: ClPassThru},
+	"reflect.Indirect":                                {class: ClPassThru},
+	"(reflect.Value).Elem":                            {class: ClPassThru},
+	"(reflect.Value).Index":                           {class: ClPassThru},
+	"(reflect.Value).MapIndex":                        {class: ClPassThru},
+	"(reflect.Value).Field":                           {class: ClPassThru},
+	"(reflect.Value).Interface":                       {class: ClPassThru},
+	"(reflect.Value).Type":                            {class: ClPure},
+	"(reflect.Value).Kind":                            {class: ClPure},
+	"(reflect.Value).IsNil":                           {class: ClPure},
+	"(reflect.Value).IsValid":                         {class: ClPure},
+	"(reflect.Value).IsZero":                          {class: ClPure},
+	"(reflect.Value).Pointer":                         {class: ClPure},
+	"(reflect.Value).UnsafePointer":                   {class: ClPure},
+	"(reflect.Value).Len":                             {class: ClPure},
+	"(reflect.Value).NumField":                        {class: ClPure},
+	"(reflect.Value).String":                          {class: ClPure},
+	"(reflect.Value).Int":                             {class: ClPure},
+	"(reflect.Value).Float":                           {class: ClPure},
+	"(reflect.Value).Bool":                            {class: ClPure},
+	"(reflect.Value).CanInterface":                    {class: ClPure},
+	"(*reflect.rtype).Kind":                           {class: ClPure},
+	"(*reflect.rtype).Name":                           {class: ClPure},
+	"(*reflect.rtype).Elem":                           {class: ClPure},
 	"(*sync.Mutex).Lock":                              {class: ClLockUnlck},
 	"(*sync.Mutex).Unlock":                            {class: ClLockUnlck},
 	"(*sync.Pool).Get":                                {class: ClPoolGet},
@@ -118,6 +143,9 @@ func (a *Analysis) recordEdge(site ssa.CallInstruction, callee *ssa.Function, ex
 // nil) is passed as the first parameter (invoke / bound receiver); closure is
 // the closure object when called through a function value.
 func (a *Analysis) bindCall(site ssa.CallInstruction, c *ssa.CallCommon, res ssa.Value, callee *ssa.Function, recvNode *Node, closure *Object) {
+	if a.skip[callee] {
+		return
+	}
 	if !a.P.InPkg(callee) || callee.Blocks == nil {
 		a.extCall(site, c, res, callee, recvNode)
 		return
@@ -258,6 +286,16 @@ func (a *Analysis) extCall(site ssa.CallInstruction, c *ssa.CallCommon, res ssa.
 	switch spec.class {
 	case ClPure, ClLockUnlck:
 		extResult()
+	case ClPassThru:
+		extResult()
+		for i := 0; i < nres; i++ {
+			if rn := a.resNode(res, i, nres); rn != nil {
+				rn.typ = nil
+				for _, an := range args {
+					a.addCopy(rn, an)
+				}
+			}
+		}
 	case ClWriteArg:
 		var addr []*Node
 		for _, i := range spec.write {
